@@ -689,13 +689,37 @@ class XrPlugin:
     def special_iterate(self, interp, st, v, o):
         if isinstance(o, Obj) and o.cls == "Dataset":
             return list(o.fields["vars"].keys())
+        if isinstance(o, Obj) and not isinstance(o.cls, str) and interp.class_lookup(o.cls, "__iter__"):
+            # iteration protocol of a repository class: iterate what its __iter__ returns
+            return interp.iterate(st, interp.call_method(st, v, "__iter__", [], {}))
         return NotImplemented
 
     def special_setitem(self, interp, st, ref, o, idx, v):
         if isinstance(o, Obj) and o.cls == "Dataset":
             k = st.deref(idx)
+            vv = st.deref(v)
+            if isinstance(vv, list) and isinstance(k, str):
+                # ds[name] = [v0, v1, ...]: a one-dimensional variable along a dimension of the same name, i.e. the
+                # dimension coordinate `name` with these values
+                cells = {}
+                for j, x in enumerate(vv):
+                    x = st.deref(x)
+                    if isinstance(x, Arr):
+                        if x.ndim != 0:
+                            raise Unsupported("Dataset[name] = list of non-scalar arrays")
+                        x = x.get(())
+                    if not T.is_num(x):
+                        raise Unsupported("Dataset[name] = list of non-numbers")
+                    cells[(j,)] = x
+                o.fields["coords"][k] = CArr((len(vv),), cells)
+                o.fields.setdefault("writes", []).append(k)
+                return True
             o.fields["vars"][k] = v
             o.fields.setdefault("writes", []).append(k)
+            if is_xa(vv):
+                # the variable brings its dimension coordinates along (existing coordinates of the dataset are kept)
+                for ck, cv in vv.fields["coords"].items():
+                    o.fields["coords"].setdefault(ck, cv)
             return True
         return NotImplemented
 
@@ -802,6 +826,56 @@ def _xr_where(interp, st, args, kwargs):
 
 
 REG["xarray.where"] = LibFunc("xarray.where", lib._wrap("xarray.where", _xr_where))
+
+
+def _xr_concat(interp, st, args, kwargs):
+    """xarray.concat([a_0, ..., a_{N-1}], dim=name) for DataArrays of one common layout (same dimension names, sizes and
+    dimension coordinates) that do NOT have the dimension `name`: a new leading dimension `name` of length N, member k is the
+    k-th argument (values and missing flags); if every argument carries `name` as a scalar coordinate, these N values become
+    the coordinate of the new dimension.  (Arguments on different coordinates would be outer-joined by xarray: not modelled.)"""
+    objs = st.deref(args[0] if args else kwargs["objs"])
+    dim = st.deref(kwargs["dim"] if "dim" in kwargs else args[1])
+    if set(kwargs) - {"dim", "objs"} or not isinstance(dim, str) or not isinstance(objs, (list, tuple)) or not objs:
+        raise Unsupported("xarray.concat: only concat(list of DataArrays, dim=name)")
+    xs = [st.deref(x) for x in objs]
+    if not all(is_xa(x) for x in xs):
+        raise Unsupported("xarray.concat of something that is not a DataArray")
+    x0 = xs[0]
+    dims, shape = x0.fields["dims"], tuple(x0.fields["arr"].shape)
+    if dim in dims:
+        raise Unsupported("xarray.concat along an existing dimension")
+    for x in xs[1:]:
+        if x.fields["dims"] != dims or x.fields["masks"] or x0.fields["masks"]:
+            raise Unsupported("xarray.concat of DataArrays with different layouts")
+        for n0, n1 in zip(shape, x.fields["arr"].shape):
+            if not (n0 is n1 or (isinstance(n0, int) and isinstance(n1, int) and n0 == n1) or interp.valid(st, T.to_z3(T.cmp("==", n0, n1)), timeout=3000)):
+                raise Unsupported("xarray.concat of DataArrays with different sizes")
+        if set(x.fields["coords"]) != set(x0.fields["coords"]) or any(x.fields["coords"][d] is not x0.fields["coords"][d] for d in x0.fields["coords"]):
+            raise Unsupported("xarray.concat of DataArrays on different coordinates")
+    N = len(xs)
+
+    def stack(srcs):
+        def g(ix):
+            k = ix[0]
+            if isinstance(k, int):
+                return srcs[k].get(tuple(ix[1:]))
+            v = srcs[N - 1].get(tuple(ix[1:]))
+            for j in range(N - 2, -1, -1):
+                v = T.ite(T.cmp("==", k, j), srcs[j].get(tuple(ix[1:])), v)
+            return v
+        return g
+    arr = Arr((N,) + shape, stack([x.fields["arr"] for x in xs]), (), x0.fields["arr"].sort)
+    nan = None
+    if any(x.fields["nan"] is not None for x in xs):
+        false = Arr(shape, lambda ix: False, (), "bool")
+        nan = Arr((N,) + shape, stack([x.fields["nan"] if x.fields["nan"] is not None else false for x in xs]), (), "bool")
+    coords = dict(x0.fields["coords"])
+    if all(dim in (x.fields.get("scoords") or {}) for x in xs):
+        coords[dim] = CArr((N,), {(j,): x.fields["scoords"][dim].get(()) for j, x in enumerate(xs)})
+    return mk_xa(st, (dim,) + dims, arr, nan, coords)
+
+
+REG["xarray.concat"] = LibFunc("xarray.concat", lib._wrap("xarray.concat", _xr_concat))
 
 
 def _xr_dataarray(interp, st, args, kwargs):
